@@ -363,20 +363,11 @@ def run(ctx):
         net0 = gen.build(spec)
         kw = {"use_numba": False}
         if two_areas:
-            # give the part that is not reached from the supply its own external grid: two supply areas
-            probe = copy.deepcopy(net0)
             from harness import c12_hist as H0
-            if H0.do_run(probe, kw)[0] == "ok":
-                import numpy as np
-                dead = [int(j) for j in probe.res_junction.index[np.isnan(probe.res_junction.p_bar.values)]
-                        if bool(probe.junction.at[j, "in_service"])]
-                if dead:
-                    eg = net0.ext_grid.iloc[0]
-                    spec = dict(spec, ops=spec["ops"] + [["create_ext_grid", {
-                        "junction": ctx.rng.choice(dead), "p_bar": float(eg.p_bar), "t_k": float(eg.t_k),
-                        "index": int(max(net0.ext_grid.index)) + 1}]])
-                    net0 = gen.build(spec)
-                    ctx.count("two_supply_areas")
+            spec, changed = H0.with_second_supply_area(spec, ctx.rng, kw)
+            if changed:
+                net0 = gen.build(spec)
+                ctx.count("two_supply_areas")
         log_vars = LOG
         if p == "heat":
             kw["mode"] = ctx.rng.choice(["sequential", "sequential", "bidirectional", "hydraulics"])
